@@ -1210,40 +1210,69 @@ def run(ctx):
 
     inits = _inits_M(ctx)
     ctx.note("start_states_sound", len(inits))
-    small = [h for h in inits if h[0][2] in ("empty", "chain3", "unpickled") or (h[0][1], h[0][2]) == ("Molecule", "star4")]
     mk_full = lambda c: MSys(c, add_elems=elems, full=thorough, label="M")
+    mk_red = lambda c: MSys(c, add_elems=elems[:2] if not thorough else sorted(elems)[:2], full=False, label="Mr")
     mk_core = lambda c: MSys(c, add_elems=elems, core=True, label="Mc")
+    tiny = [h for h in inits if h[0][2] in ("empty", "chain3")]
+    small = [h for h in inits if h[0][2] in ("empty", "chain3", "unpickled") or (h[0][1], h[0][2]) == ("Molecule", "star4")]
+    name = lambda hs: [f"{h[0][1]}/{h[0][2]}" for h in hs]
+    mark = [ctx.transitions, 0]
 
-    # (1) every start state, full alphabet
+    def phase(label):
+        levels = {k: ctx.notes.pop(k) for k in sorted(ctx.notes) if k.startswith("level_")}
+        ctx.note(f"phase_{label}", {"transitions": ctx.transitions - mark[0], "new_states_per_level": [levels[k] for k in sorted(levels, key=lambda x: int(x.split("_")[1]))]})
+        mark[0] = ctx.transitions
+
+    # (1) every start state, the tier's full alphabet
     d_all = 3 if thorough else 2
     seqx.pbfs(ctx, mk_full, inits, d_all, nproc=nproc, chunk=16)
     ctx.bound["full_alphabet_all_starts_depth"] = d_all
-    # (2) one level deeper from the small start states (branching grows with the atom count)
-    d_small = 4 if thorough else 3
-    seqx.pbfs(ctx, mk_full, small, d_small, nproc=nproc, chunk=16)
-    ctx.bound["full_alphabet_small_starts_depth"] = d_small
-    ctx.bound["small_starts"] = [f"{h[0][1]}/{h[0][2]}" for h in small]
+    phase("1_all_starts")
     ctx.bound["add_elements"] = list(elems)
+    # (2) one level deeper from small start states (branching grows with the atom count); in the
+    #     thorough tier with the reduced (quick) alphabet
+    d_small = 4 if thorough else 3
+    deeper = tiny if thorough else small
+    seqx.pbfs(ctx, mk_red if thorough else mk_full, deeper, d_small, nproc=nproc, chunk=16)
+    ctx.bound["deeper_depth"] = d_small
+    phase("2_deeper")
+    ctx.bound["deeper_starts"] = name(deeper)
+    ctx.bound["deeper_alphabet"] = "reduced (2 elements, adjacent-pair append_bond, index addressing for connect)" if thorough else "full"
     # (3) the add / delete / connect core, deep
-    dcore = 7 if thorough else 5
-    seqx.pbfs(ctx, mk_core, small, dcore, nproc=nproc, chunk=32)
-    ctx.bound["core_alphabet_small_starts_depth"] = dcore
+    if thorough:
+        # Molecule (the class the property is about) one level deeper than Structure
+        for dcore, cstarts in ((8, [h for h in tiny if h[0][1] == "Molecule"]), (7, [h for h in tiny if h[0][1] == "Structure"])):
+            if cstarts:
+                seqx.pbfs(ctx, mk_core, cstarts, dcore, nproc=nproc, chunk=32)
+                ctx.bound[f"core_alphabet_depth[{cstarts[0][0][1]}]"] = dcore
+                ctx.bound[f"core_starts[{cstarts[0][0][1]}]"] = name(cstarts)
+                phase(f"3_core_{cstarts[0][0][1]}")
+    else:
+        dcore = 5
+        seqx.pbfs(ctx, mk_core, small, dcore, nproc=nproc, chunk=32)
+        ctx.bound["core_alphabet_depth"] = dcore
+        ctx.bound["core_starts"] = name(small)
+        phase("3_core")
 
     vin = _inits_V(ctx)
     dv = 5 if thorough else 4
     seqx.pbfs(ctx, lambda c: VSys(c, label="V"), vin, dv, nproc=nproc, chunk=32)
     ctx.bound["V_depth"] = dv
+    phase("4_views")
     ctx.note("distinct_canonical_states", len(ctx.state_keys))
 
 
 def replay(ctx, case):
+    """re-executes the history step by step WITH the oracle on every step (the tree may have changed
+    since the artefact was written); stops at the first violating step"""
     hist = [tuple(o) for o in case["history"]]
     ctx.seed = case.get("seed", ctx.seed)
     sm = (VSys if case.get("sys") == "V" else MSys)(ctx, add_elems=("C", "H", "O"), label="replay")
-    if len(hist) == 1:
-        st = MState()
-        sm.step(st, hist[0])
-        return
-    st = sm.build(hist[:-1])
-    sm.step(st, hist[-1])
+    st = MState()
+    for op in hist:
+        if op[0] == "query":
+            sm.step(st, op)
+            continue
+        if not sm.step(st, op):
+            break
     sm.dispose(st)
